@@ -305,6 +305,9 @@ Argument:
         scheduler_class = {'batch':       BatchScheduler,
                            'round-robin': RoundRobinScheduler,
                            'random':      RandomScheduler}.get(self._config.options.scheduler)
+        if scheduler_class is None:
+            raise UIError("Unknown scheduler: %s. Use one of: batch, round-robin, random.\n"
+                          % self._config.options.scheduler, None)
 
         executor = Executor(runs, self._config.do_builds,
                             self.ui,
